@@ -94,6 +94,12 @@ def gen_cases(rng, tier):
                 cases.append({"tool": tool, "launcher": la, "scenario": "list", "into": False, "verbose": rng.random() < 0.5, "sub": rng.choice(["", "arc/"])})
             else:
                 cases.append({"tool": tool, "launcher": la, "scenario": "run"})
+    # every rejected archiver command line again, with an --into naming a directory that does not exist yet, before / between / after the other arguments
+    more = []
+    for c in cases:
+        if c["tool"] in ARCHIVERS and c["scenario"] in ("unknown", "noaction", "twoactions", "wrongext"):
+            more.append(dict(c, into_pos=rng.choice(["front", "front", "mid", "back"])))
+    cases += more
     if tier == "thorough":
         extra = []
         for c in cases:
@@ -192,6 +198,11 @@ def run_case(case, ctx):
                 act, wrong = case["variant"]
                 shutil.copy(os.path.join(root, "good" + ext), os.path.join(root, "bad" + wrong))
                 argv = [act, "bad" + wrong] + (["one.bas"] if act in ("-c", "-r") else [])
+            if case.get("into_pos") and ext:
+                # a rejected command line leaves nothing behind, even when it names an output directory that does not exist yet
+                k = argv.index("--") if "--" in argv else len(argv)
+                pos = {"front": 0, "back": k, "mid": min(1, k)}[case["into_pos"]]
+                argv = argv[:pos] + ["--into", "fresh dir"] + argv[pos:]
             before = snapshot(root)
             dis = compare_model(ctx, tool, argv, root, None)
             st, out, err = launch(tool, la, argv, root)
@@ -302,7 +313,7 @@ def run_case(case, ctx):
                             bad = {"second extraction failed": [st2, err2[-300:]]}
                         elif again.get(victim) != want[next(iter(want))]:
                             bad = {"second extraction did not overwrite": victim}
-        sig = [tool, la, sc] + ([str(case.get("into"))] if "into" in case else [])
+        sig = [tool, la, sc] + ([str(case.get("into"))] if "into" in case else []) + (["into:" + case["into_pos"]] if case.get("into_pos") else [])
         skipped = dis == "unmodelled"
         if skipped:
             dis = None
